@@ -73,6 +73,7 @@ type Reply struct {
 	Err    error         // connection-level failure (reset)
 	Delay  time.Duration // server think time
 	Hang   bool          // never answer: only the client's timeout ends the request
+	Stall  bool          // status line and headers arrive, then the body never does (reading it blocks until the request is cancelled)
 }
 
 // Server is the scripted remote end.
@@ -98,6 +99,7 @@ type Transport struct {
 	IdleConnTimeout       time.Duration
 	TLSHandshakeTimeout   time.Duration
 	ExpectContinueTimeout time.Duration
+	ResponseHeaderTimeout time.Duration
 	TLSNextProto          map[string]func(authority string, c *tls.Conn) http.RoundTripper
 	TLSClientConfig       *tls.Config
 }
@@ -130,11 +132,24 @@ func (t *Transport) RoundTrip(req *http.Request) (*http.Response, error) {
 	}
 	rep := s.Serve(req.URL.String(), req.Header, body)
 	ctx := req.Context()
+	// like the real transport: waiting for the response headers is bounded by ResponseHeaderTimeout (if set) and by the request's
+	// context (which is how http.Client.Timeout arrives); reading the body is bounded by the context only
+	var hdr <-chan time.Time
+	if t.ResponseHeaderTimeout > 0 {
+		tm := time.NewTimer(t.ResponseHeaderTimeout)
+		defer tm.Stop()
+		hdr = tm.C
+	}
 	if rep.Hang {
 		simrt.Probe("http.hang")
-		<-ctx.Done()
-		simrt.Yield("simhttp.hang")
-		return nil, ctx.Err()
+		select {
+		case <-ctx.Done():
+			simrt.Yield("simhttp.hang")
+			return nil, ctx.Err()
+		case <-hdr:
+			simrt.Yield("simhttp.hang.hdr")
+			return nil, errors.New("net/http: timeout awaiting response headers")
+		}
 	}
 	if rep.Delay > 0 {
 		tm := time.NewTimer(rep.Delay)
@@ -150,6 +165,11 @@ func (t *Transport) RoundTrip(req *http.Request) (*http.Response, error) {
 	if rep.Err != nil {
 		return nil, rep.Err
 	}
+	if rep.Stall {
+		simrt.Probe("http.stalled_body")
+		return &http.Response{Status: http.StatusText(rep.Status), StatusCode: rep.Status, Proto: "HTTP/1.1", ProtoMajor: 1, ProtoMinor: 1,
+			Header: http.Header{}, Body: &stalledBody{ctx: ctx}, ContentLength: -1, Request: req}, nil
+	}
 	return &http.Response{Status: http.StatusText(rep.Status), StatusCode: rep.Status, Proto: "HTTP/1.1", ProtoMajor: 1, ProtoMinor: 1,
 		Header: http.Header{}, Body: ioutil.NopCloser(bytes.NewReader([]byte(rep.Body))), ContentLength: int64(len(rep.Body)), Request: req}, nil
 }
@@ -162,3 +182,16 @@ func lk(m *sync.Mutex) { simrt.SyncOff(); m.Lock() }
 
 //go:norace
 func ul(m *sync.Mutex) { m.Unlock(); simrt.SyncOn() }
+
+// stalledBody is a response body that never arrives: Read blocks until the request's context is done.
+type stalledBody struct{ ctx context.Context }
+
+//go:norace
+func (b *stalledBody) Read(p []byte) (int, error) {
+	<-b.ctx.Done()
+	simrt.Yield("simhttp.stalled")
+	return 0, b.ctx.Err()
+}
+
+//go:norace
+func (b *stalledBody) Close() error { return nil }
